@@ -327,6 +327,7 @@ type tunnelServerStream struct {
 	sender     sender
 	receiver   receiver[tunnelpb.ClientToServerFrame]
 	halfClosed atomic.Pointer[errHolder]
+	finishErr  atomic.Pointer[errHolder]
 
 	// for reading frames from channel, to read message data
 	readMu  sync.Mutex
@@ -645,6 +646,13 @@ func (st *tunnelServerStream) serveStream(md interface{}, srv interface{}) {
 }
 
 func (st *tunnelServerStream) finishStream(err error) {
+	// The first call decides how the stream ends. Cancelling the context below
+	// wakes up the handler, which then typically fails with that cancellation
+	// and calls this again; it must not overwrite the actual reason (such as a
+	// flow control violation detected by the receive loop).
+	st.finishErr.CompareAndSwap(nil, &errHolder{err})
+	err = st.finishErr.Load().error
+
 	st.cancel()
 	st.svr.removeStream(st.streamID)
 	st.halfClose(err)
